@@ -23,7 +23,8 @@ def _small_surface(draw, variant, tracks, spt):
     if variant == "opus":
         return draw(gen.surface(variants=("opus",), chars=CHARS, big_ok=False, opus_geoms=[(tracks, 18)]))
     nsec = tracks * spt
-    total = min(nsec, 1023)
+    # the catalogue's total-sectors field: usually the whole surface, sometimes a smaller file system
+    total = draw(st.sampled_from([min(nsec, 1023)] * 3 + [t for t in (300, 350, 400, 630, 721, 800) if t <= min(nsec, 1023)]))
     lo = 4 if variant == "watford" else 2
     ents = draw(gen.entries_for(lo, total, 8, CHARS, None, True, False))
     if variant == "watford":
